@@ -209,3 +209,18 @@ func Hash64(name string, args ...uint64) uint64 {
 
 // SetGOMAXPROCS fixes what runtime.GOMAXPROCS(0) returns under the engine.
 func SetGOMAXPROCS(n int) {}
+
+// And, Or, Implies, Not are eager (non-short-circuit) boolean connectives:
+// under the symbolic executor they build one formula instead of forking.
+func And(a, b bool) bool     { return a && b }
+func Or(a, b bool) bool      { return a || b }
+func Implies(a, b bool) bool { return !a || b }
+func Not(a bool) bool        { return !a }
+
+// IteU64 is a non-forking conditional.
+func IteU64(c bool, a, b uint64) uint64 {
+	if c {
+		return a
+	}
+	return b
+}
